@@ -742,3 +742,51 @@ func numberWords(buf []byte, p int, id, val uint64) bool {
 //@   ensures prefix: forall(0, len(old(pj.Tape)), func(j int) bool { return pj.Tape[j] == old(pj.Tape)[j] })
 //@   ensures rejected: implies(!result, len(pj.Tape) == len(old(pj.Tape)))
 //@   safe [C05]
+
+// ---------------------------------------------------------------------------
+// Stage 1 driver. The two slice kernels are assembly: their Go-level contract below is assembled from the
+// per-iteration obligations asmvc discharges on the machine code (block = S5, flatten = position fold, exit
+// decision, result, frames) and the fold lemmas (position+1+carried counts consumed positions; the index
+// grows iff a bit is set; a hit resets the gap) by induction over the blocks of one call.
+
+func roundup64(x uint64) uint64 { return (x + 63) &^ 63 }
+
+func maxInt(a, b int) int {
+	if a > b {
+		return a
+	}
+	return b
+}
+
+//@ func find_structural_bits_in_slice
+//@   props C05 C07 C01
+//@   trusted asmvc: _find_structural_bits_in_slice.abi0 iter#*/next#*/done#*/entry#*/loads#*, __flatten_bits_incremental, speclemma/flatten
+//@   requires 0 <= *index && *index <= indexSizeWithSafetyBuffer+63 && len(buf) < 1<<40
+//@   assigns *prev_iter_ends_odd_backslash, *prev_iter_inside_quote, *error_mask, *prev_iter_ends_pseudo_pred, *indexes, *index, *carried, *position
+//@   ensures bounded: processed <= uint64(len(buf)) && (processed%64 == 0 || processed == uint64(len(buf)))
+//@   ensures earlystop: implies(processed < uint64(len(buf)), *index >= indexSizeWithSafetyBuffer)
+//@   ensures indexrange: old(*index) <= *index && *index <= maxInt(old(*index), indexSizeWithSafetyBuffer-1)+64
+//@   ensures counts: *position+1+*carried == old(*position)+1+old(*carried)+roundup64(processed)
+//@   ensures hit: implies(*index > old(*index), *carried < roundup64(processed)) && implies(*index == old(*index), *carried == old(*carried)+roundup64(processed) && *position == old(*position))
+//@   ensures progress: implies(len(buf) > 0, processed > 0)
+//@   nonnil prev_iter_ends_odd_backslash prev_iter_inside_quote error_mask prev_iter_ends_pseudo_pred indexes index carried position
+
+//@ func find_structural_bits_in_slice_avx512
+//@   props C05 C07 C01
+//@   trusted asmvc: _find_structural_bits_in_slice_avx512.abi0 iter#*/next#*/done#*/entry#*/loads#*, __flatten_bits_incremental, speclemma/flatten
+//@   requires 0 <= *index && *index <= indexSizeWithSafetyBuffer+63 && len(buf) < 1<<40
+//@   assigns *prev_iter_ends_odd_backslash, *prev_iter_inside_quote, *error_mask, *prev_iter_ends_pseudo_pred, *indexes, *index, *carried, *position
+//@   ensures bounded: processed <= uint64(len(buf)) && (processed%64 == 0 || processed == uint64(len(buf)))
+//@   ensures earlystop: implies(processed < uint64(len(buf)), *index >= indexSizeWithSafetyBuffer)
+//@   ensures indexrange: old(*index) <= *index && *index <= maxInt(old(*index), indexSizeWithSafetyBuffer-1)+64
+//@   ensures counts: *position+1+*carried == old(*position)+1+old(*carried)+roundup64(processed)
+//@   ensures hit: implies(*index > old(*index), *carried < roundup64(processed)) && implies(*index == old(*index), *carried == old(*carried)+roundup64(processed) && *position == old(*position))
+//@   ensures progress: implies(len(buf) > 0, processed > 0)
+//@   nonnil prev_iter_ends_odd_backslash prev_iter_inside_quote error_mask prev_iter_ends_pseudo_pred indexes index carried position
+
+//@ func (*internalParsedJson).findStructuralIndices
+//@   props C05
+//@   requires len(pj.Message) < 1<<40
+//@   invariant 0 len(buf) < 1<<40 && implies(len(buf) > 0 && stripped_index == ^uint64(0), position+1+carried == 0) && implies(len(buf) > 0 && stripped_index != ^uint64(0), position+1+carried+stripped_index == 0 && stripped_index < 1<<32)
+//@   decreases 0 len(buf)
+//@   safe
